@@ -4,7 +4,7 @@ CONSTANTS
   MAXSTEPS = 2
   MAXTICK = 0
   MAXLEN = 0
-  STRIDE = 4
+  STRIDE = 8
 INVARIANT C01_NeverAWrongCall
 INVARIANT C01_AllCallsWhenDone
 INVARIANT C01_Rejected
